@@ -407,7 +407,7 @@ def validate_traces(ctx):
             ctx.broken.append(("trace-validation:" + name, "compiled kernel and extracted tableau differ by %g" % err))
             ctx.obligations["trace-validation:" + name] = False
 
-    n = 40 if ctx.thorough() else 10
+    n = 200 if ctx.thorough() else 10
     for _ in range(n):
         t = ctx.rng.uniform(-1, 1)
         h = ctx.rng.choice([-1, 1]) * 10 ** ctx.rng.uniform(-3, -0.5)
@@ -610,7 +610,7 @@ def controller_corr(ctx):
         expect.append(fr(U._pi_reject_factor(float("nan"), order)))
     # clamp / adjust / initial step on random dyadic data (incl. min > max and negative spans)
     dy = lambda: rng.choice([-1, 1]) * rng.randint(0, 64) / 2.0 ** rng.randint(0, 8)
-    for _ in range(400 if ctx.thorough() else 120):
+    for _ in range(4000 if ctx.thorough() else 120):
         h, mx, mn = dy(), abs(dy()), abs(dy())
         lines.append("clamp %s %s %s" % (fr(h), fr(mx), fr(mn)))
         expect.append(fr(U._clamp_step(h, mx, mn)))
